@@ -27,8 +27,9 @@ RULE = ("(A) every sequence up to length 6 of the ownership operations {take, se
         "(handle_proxied_packet, handle_lludp_message, handle_rlv_command, session- and region-level message_handler "
         "subscribers incl. predicates / wait_for / subscribe_async) from {return falsy values, return truthy values, raise "
         "Exception subclasses, take (+send / keep / send twice), drop (+again / then send), send original (+again), send a "
-        "new message, mutate}, over a stream of viewer and simulator messages (reliable or not, command-channel chat, RLV "
-        "owner-say with 1-3 commands).  Quick = all single and all double deviation placements + generated multi-deviation programs; thorough "
+        "new message, mutate, only read}, abandoned time-limited waiters, over a stream of viewer and simulator messages (reliable or "
+        "not, command-channel chat with unknown / failing / good commands, RLV owner-say with 0-3 commands, an unparseable datagram, "
+        "AgentDataUpdate for the proxy's own bookkeeping).  Quick = all single and all double deviation placements + generated multi-deviation programs; thorough "
         "runs the pairs over all four message streams and 40x the random programs.  Non-trivial = program in which at least one hook deviates from `return None`; distinct by program.")
 ASSUMPTIONS = [
     "emissions are attributed to message objects through the ProxiedCircuit._send_prepared_message seam (as the repository's tests do)",
